@@ -78,10 +78,19 @@ def run_unit(spec):
         kinds = wc.kinds
         requires = wc.requires
     else:
-        w, r = getattr(W, wname), getattr(R, rname)
-        wc = reg0.writers[wname]
-        kinds = wc.kinds
-        requires = wc.requires
+        w, r = getattr(W, wname, None), getattr(R, rname, None)
+        wc = reg0.writers.get(wname)
+        if w is None or r is None or (wc is None and rname not in reg0.readers):
+            return [{"unit": f"L1/rt-inline/{wname}+{rname}", "obligations": [], "paths": 0, "time": 0, "functions": [],
+                     "undecided": [f"the pair ({wname}, {rname}) used at {where} has no contract to take its value domain from"]}]
+        if wc is not None:
+            kinds = wc.kinds
+            requires = wc.requires
+        else:
+            # a writer without a contract of its own (new or renamed): its value domain is taken from the reader it is
+            # paired with in the plan; the round trip itself is still proved from the two bodies
+            kinds = [reg0.readers[rname].desc]
+            requires = lambda ctx, v: True      # noqa: E731
 
     class OnlyAbstract:
         def lookup(self, fn):
@@ -114,7 +123,7 @@ def run_unit(spec):
             o1 = run_body(it, w, [sink, v])
             if o1.kind != "return":
                 # only the contracted encode errors (value outside the domain) may stop the round trip here
-                exp = wc.expect(ctx, v)
+                exp = wc.expect(ctx, v) if wc is not None else ("return",)
                 if exp[0] != "raise":
                     path_obligation(res, ctx, f"{res.unit}/writer-accepts-domain-value", z3.BoolVal(False),
                                     expected="encodes (the value is inside the writer's domain)", got=repr(o1))
